@@ -107,9 +107,17 @@ def main(argv=None) -> int:
     if nshards == 1:
         results = [_worker(jobs[0])]
     else:
+        # (an executor, not mp.Pool: Pool.map waits forever when a worker process dies)
+        from concurrent.futures import ProcessPoolExecutor
+        from concurrent.futures.process import BrokenProcessPool
+
         ctx = mp.get_context("spawn")
-        with ctx.Pool(min(nshards, os.cpu_count() or 1)) as pool:
-            results = pool.map(_worker, jobs, chunksize=1)
+        try:
+            with ProcessPoolExecutor(min(nshards, os.cpu_count() or 1), mp_context=ctx) as pool:
+                results = list(pool.map(_worker, jobs, chunksize=1))
+        except BrokenProcessPool as e:
+            print(f"HARNESS-ERROR: a shard process died without reporting ({e})", file=sys.stderr)
+            return 2
 
     errors = [r["error"] for r in results if not r["ok"]]
     if errors:
